@@ -28,3 +28,27 @@ package config
 //@   opt auto-counters 1
 //@   prop C16
 
+
+// C06 (tsconfig "extends"): every option is merged on its own: the extending file's value wins when it sets the option,
+// otherwise the inherited value stays; no option's value ever lands in another option. (These functions are called as
+// result.ApplyExtendedConfig(overrides): `derived` is the configuration being built, `base` the one whose set options
+// override it.)
+//@ func (*TSConfig).ApplyExtendedConfig
+//@   arith int
+//@   prop C06
+//@   requires derived != nil
+//@   ensures experimentalDecorators: derived.ExperimentalDecorators == (base.ExperimentalDecorators != Unspecified ? base.ExperimentalDecorators : old(derived.ExperimentalDecorators))
+//@   ensures importsNotUsedAsValues: derived.ImportsNotUsedAsValues == (base.ImportsNotUsedAsValues != TSImportsNotUsedAsValues_None ? base.ImportsNotUsedAsValues : old(derived.ImportsNotUsedAsValues))
+//@   ensures preserveValueImports: derived.PreserveValueImports == (base.PreserveValueImports != Unspecified ? base.PreserveValueImports : old(derived.PreserveValueImports))
+//@   ensures target: derived.Target == (base.Target != TSTargetUnspecified ? base.Target : old(derived.Target))
+//@   ensures useDefineForClassFields: derived.UseDefineForClassFields == (base.UseDefineForClassFields != Unspecified ? base.UseDefineForClassFields : old(derived.UseDefineForClassFields))
+//@   ensures verbatimModuleSyntax: derived.VerbatimModuleSyntax == (base.VerbatimModuleSyntax != Unspecified ? base.VerbatimModuleSyntax : old(derived.VerbatimModuleSyntax))
+
+//@ func (*TSConfigJSX).ApplyExtendedConfig
+//@   arith int
+//@   prop C06
+//@   requires derived != nil
+//@   ensures jsx: derived.JSX == (base.JSX != TSJSXNone ? base.JSX : old(derived.JSX))
+//@   ensures jsxFactory: sameArray(derived.JSXFactory, (base.JSXFactory != nil ? base.JSXFactory : old(derived.JSXFactory)))
+//@   ensures jsxFragmentFactory: sameArray(derived.JSXFragmentFactory, (base.JSXFragmentFactory != nil ? base.JSXFragmentFactory : old(derived.JSXFragmentFactory)))
+//@   ensures jsxImportSource: derived.JSXImportSource == (base.JSXImportSource != nil ? base.JSXImportSource : old(derived.JSXImportSource))
